@@ -684,7 +684,7 @@ def shards(tier, seed):
     out = [('gen', i, per, seed, tier) for i in range(n_shards)]
     out += [('hyp', i, 120 if tier == 'thorough' else 12, seed, tier) for i in range(16 if tier == 'thorough' else 4)]
     out += [('tmpl', k, seed, tier) for k in range(len(TEMPLATES))]
-    out += [('core', i, 400 if tier == 'thorough' else 60, seed, tier) for i in range(32 if tier == 'thorough' else 8)]
+    out += [('core', i, 1500 if tier == 'thorough' else 150, seed, tier) for i in range(32 if tier == 'thorough' else 8)]
     out.append(('corehand', seed, tier))
     return out
 
